@@ -2449,3 +2449,223 @@ func E5StitchingArity(c *core.Ctx, r *core.Report) {
 	r.Count("E5.stitching-dicts", 1)
 	r.Floor("E5.stitching-dicts", 1)
 }
+
+// E5TextStringEncoding: a text string is written raw only when it is ASCII.
+func E5TextStringEncoding(c *core.Ctx, r *core.Report) {
+	r.Rule("E5.text-string-encoding", "a PDF text string without the byte-order mark FE FF is read as PDFDocEncoding, which agrees with Unicode on the printable ASCII range only (A0 is the Euro sign, AD and 9F are undefined, 80–9E are dashes, quotes and ligatures). The helper of pdfWriter.Close that encodes the metadata — the function literal that calls utf16.Encode — therefore writes a string as it is only if every rune is below 0x80: the smallest rune for which its rune comparisons choose the UTF-16BE form is 0x80, and the UTF-16 branch writes the mark. With the Latin-1 bound 0xFF, a title with a no-break space or a soft hyphen is stored as a byte a reader shows as another character")
+	p := c.MustPkg(pdfRel)
+	info := p.TypesInfo
+	fd := core.MustFuncDecl(p, "pdfWriter.Close")
+	var lit *ast.FuncLit
+	ast.Inspect(fd.Body, func(m ast.Node) bool {
+		fl, ok := m.(*ast.FuncLit)
+		if !ok {
+			return true
+		}
+		has := false
+		ast.Inspect(fl.Body, func(k ast.Node) bool {
+			if call, ok := k.(*ast.CallExpr); ok {
+				if f := core.CalleeOf(info, call); f != nil && f.Pkg() != nil && f.Pkg().Path() == "unicode/utf16" && f.Name() == "Encode" {
+					has = true
+				}
+			}
+			return true
+		})
+		if has {
+			lit = fl
+		}
+		return true
+	})
+	key := "pdf.pdfWriter.Close|metadata is written raw only when ASCII"
+	if lit == nil {
+		r.Fail("E5.text-string-encoding", key, c.Pos(fd.Pos()), "the helper that encodes text strings as UTF-16BE was not found")
+		return
+	}
+	// thresholds: smallest rune that satisfies a comparison `r ⋈ K` of a rune-typed variable with a constant
+	threshold := int64(-1)
+	var at token.Pos
+	ast.Inspect(lit.Body, func(m ast.Node) bool {
+		be, ok := m.(*ast.BinaryExpr)
+		if !ok {
+			return true
+		}
+		isRune := func(e ast.Expr) bool {
+			id, ok := core.Unparen(e).(*ast.Ident)
+			if !ok {
+				return false
+			}
+			b, ok := info.TypeOf(id).Underlying().(*types.Basic)
+			return ok && (b.Kind() == types.Int32 || b.Kind() == types.UntypedRune)
+		}
+		var k int64
+		var t int64 = -1
+		if kv, ok := core.ConstInt(info, be.Y); ok && isRune(be.X) {
+			k = kv
+			switch be.Op {
+			case token.GEQ:
+				t = k
+			case token.GTR:
+				t = k + 1
+			case token.LSS: // r < K : raw below K
+				t = k
+			case token.LEQ:
+				t = k + 1
+			}
+		} else if kv, ok := core.ConstInt(info, be.X); ok && isRune(be.Y) {
+			k = kv
+			switch be.Op {
+			case token.LEQ: // K <= r
+				t = k
+			case token.LSS: // K < r
+				t = k + 1
+			case token.GTR: // K > r : raw below K
+				t = k
+			case token.GEQ:
+				t = k + 1
+			}
+		}
+		if t >= 0 && (threshold < 0 || t > threshold) {
+			threshold, at = t, be.Pos()
+		}
+		return true
+	})
+	// the UTF-16 branch writes the byte-order mark
+	bom := false
+	ast.Inspect(lit.Body, func(m ast.Node) bool {
+		if bl, ok := m.(*ast.BasicLit); ok {
+			v := strings.ToLower(bl.Value)
+			if strings.Contains(v, "feff") || strings.Contains(v, `\xfe\xff`) || strings.Contains(v, "0xfe") || v == "254" {
+				bom = true
+			}
+		}
+		return true
+	})
+	switch {
+	case threshold < 0:
+		r.Fail("E5.text-string-encoding", key, c.Pos(lit.Pos()), "no comparison of a rune with a constant decides between the raw and the UTF-16BE form")
+	case threshold != 0x80:
+		r.Fail("E5.text-string-encoding", key, c.Pos(at), fmt.Sprintf("strings are written raw up to rune 0x%X; PDFDocEncoding agrees with Unicode only below 0x80, so e.g. U+00A0 (no-break space) is stored as the byte a reader shows as the Euro sign", threshold-1))
+	case !bom:
+		r.Fail("E5.text-string-encoding", key, c.Pos(lit.Pos()), "the UTF-16 form is written without the byte-order mark FE FF: a reader takes it for PDFDocEncoding")
+	default:
+		r.OK("E5.text-string-encoding", key, c.Pos(lit.Pos()), "raw below 0x80, otherwise FE FF + UTF-16BE")
+	}
+	r.Count("E5.text-string-encoders", 1)
+	r.Floor("E5.text-string-encoders", 1)
+}
+
+// E5DefaultWidth: codes the /W array does not list take the default width, so /DW is theirs.
+func E5DefaultWidth(c *core.Ctx, r *core.Report) {
+	r.Rule("E5.default-width", "pdfWriter.writeFont lists widths in /W from the code its run variables start at; every lower code — code 0, .notdef, which the subsetter pins there — reaches a reader through /DW only. The value stored under \"DW\" is therefore the width of code 0: a variable defined as widths[0] (the slice the runs are found in) and not assigned again, or that expression itself; if the run variables start at 0 every code is listed and /DW is free. Choosing the most frequent width as the default looks like a size optimisation, but after every character the font lacks a reader then advances by another glyph's width, while layout and the TJ corrections use .notdef's own advance")
+	p := c.MustPkg(pdfRel)
+	info := p.TypesInfo
+	fd := core.MustFuncDecl(p, "pdfWriter.writeFont")
+	key := "pdf.pdfWriter.writeFont|/DW is the width of the codes /W leaves out"
+	// the widths slice: the []int ranged over by the run loop; the run start: ints defined `i, j := s, s` before that loop
+	var widthsObj types.Object
+	start := int64(-1)
+	for i, st := range fd.Body.List {
+		rs, ok := st.(*ast.RangeStmt)
+		if !ok {
+			continue
+		}
+		wid, ok := core.Unparen(rs.X).(*ast.Ident)
+		if !ok {
+			continue
+		}
+		if sl, ok := info.TypeOf(wid).Underlying().(*types.Slice); !ok || !types.Identical(sl.Elem(), types.Typ[types.Int]) {
+			continue
+		}
+		// the statement before: run variables
+		if i == 0 {
+			continue
+		}
+		if as, ok := fd.Body.List[i-1].(*ast.AssignStmt); ok && as.Tok == token.DEFINE && len(as.Lhs) == len(as.Rhs) {
+			s := int64(-1)
+			same := true
+			for _, rhs := range as.Rhs {
+				v, ok := core.ConstInt(info, rhs)
+				if !ok || (s >= 0 && v != s) {
+					same = false
+				}
+				s = v
+			}
+			if same && s >= 0 {
+				widthsObj, start = core.ObjOf(info, wid), s
+			}
+		}
+	}
+	if widthsObj == nil {
+		r.Fail("E5.default-width", key, c.Pos(fd.Pos()), "the run loop over the widths and the start of its run variables were not found")
+		return
+	}
+	// the value stored under "DW"
+	var dw ast.Expr
+	ast.Inspect(fd.Body, func(m ast.Node) bool {
+		kv, ok := m.(*ast.KeyValueExpr)
+		if !ok {
+			return true
+		}
+		if s, ok := constString(info, kv.Key); ok && s == "DW" {
+			dw = kv.Value
+		}
+		return true
+	})
+	if dw == nil {
+		r.Fail("E5.default-width", key, c.Pos(fd.Pos()), "no \"DW\" entry is written")
+		return
+	}
+	r.Count("E5.dw-entries", 1)
+	r.Floor("E5.dw-entries", 1)
+	if start == 0 {
+		r.OK("E5.default-width", key, c.Pos(dw.Pos()), "/W lists every code from 0")
+		return
+	}
+	isCode0 := func(e ast.Expr) bool {
+		ie, ok := core.Unparen(e).(*ast.IndexExpr)
+		if !ok {
+			return false
+		}
+		id, ok := core.Unparen(ie.X).(*ast.Ident)
+		if !ok || core.ObjOf(info, id) != widthsObj {
+			return false
+		}
+		v, ok := core.ConstInt(info, ie.Index)
+		return ok && v == 0
+	}
+	okDW := isCode0(dw)
+	why := "`" + types.ExprString(dw) + "` is not the width of code 0"
+	if id, ok := core.Unparen(dw).(*ast.Ident); ok {
+		o := core.ObjOf(info, id)
+		nAssign := 0
+		var first ast.Expr
+		ast.Inspect(fd.Body, func(m ast.Node) bool {
+			as, ok := m.(*ast.AssignStmt)
+			if !ok {
+				return true
+			}
+			for i, l := range as.Lhs {
+				if lid, ok := l.(*ast.Ident); ok && core.ObjOf(info, lid) == o {
+					nAssign++
+					if first == nil && i < len(as.Rhs) && len(as.Lhs) == len(as.Rhs) {
+						first = as.Rhs[i]
+					}
+				}
+			}
+			return true
+		})
+		switch {
+		case first == nil || !isCode0(first):
+			why = "`" + id.Name + "` is not defined as the width of code 0"
+		case nAssign != 1:
+			why = fmt.Sprintf("`%s` starts as the width of code 0 but is assigned %d times: the value written is another glyph's width", id.Name, nAssign)
+		default:
+			okDW = true
+		}
+	}
+	if okDW {
+		r.OK("E5.default-width", key, c.Pos(dw.Pos()), fmt.Sprintf("/W starts at code %d, /DW = widths[0]", start))
+	} else {
+		r.Fail("E5.default-width", key, c.Pos(dw.Pos()), fmt.Sprintf("/W lists the codes from %d on, so code 0 (.notdef) takes /DW, but %s: a reader advances by the wrong amount after every character the font lacks", start, why))
+	}
+}
